@@ -22,7 +22,7 @@ def run(ctx):
     ]
     ctx.assumptions += ["match limit unbounded; queries from the generated subset (no top-level groups, no predicates)"]
     ctx.regen()
-    ctx.prove(["TsVerif.C05.Props", "TsVerif.C05.VerifyProps", "TsVerif.C05.GroupProps"], "TsVerif/C05/Audit.lean")
+    ctx.prove(["TsVerif.C05.Props", "TsVerif.C05.VerifyProps", "TsVerif.C05.GroupProps", "TsVerif.C05.JudgeProps"], "TsVerif/C05/Audit.lean")
     driver = ctx.build_driver("tsv-c05")
     explorer = ctx.cargo_bin("c05")
     if not (explorer and os.path.exists(driver)):
